@@ -25,11 +25,13 @@ def make_obs(ctx):
                   bounds={'table': 'concrete 300 transitions half a year apart', 'instant': 'any'}))
     # the loader's part of the property (added after a missed seed): the table that the lookups see is the file's
     # table with transitions to the same type merged; harness shared with C19
-    obs.append(Ob('load:v1:ntr3.nty2', 'C19_zif.c', 'h_zif_open',
-                  {'SIZE': 71, 'MAGIC': 1, 'H1_NTR': 3, 'H1_NTY': 2, 'H1_CHR': 0, 'H1_NLP': 0, 'H1_STD': 0, 'H1_GMT': 0, 'LOADCHK': 1},
-                  units=UNITS, unwind=12, flags=['--max-field-sensitivity-array-size', '160'], group='load',
-                  unwindset=['h_zif_open.0:73', 'h_zif_open.1:73'], timeout=600,
-                  bounds={'image': 'TZif version 1, exactly 71 bytes: 3 transitions, 2 types, every body byte symbolic'}))
+    for (ntr, nty) in ([(3, 2)] if ctx.tier == 'quick' else [(1, 1), (2, 2), (3, 2), (3, 3), (4, 2), (5, 3)]):
+        sz = 44 + 5 * ntr + 6 * nty
+        obs.append(Ob('load:v1:ntr%d.nty%d' % (ntr, nty), 'C19_zif.c', 'h_zif_open',
+                      {'SIZE': sz, 'MAGIC': 1, 'H1_NTR': ntr, 'H1_NTY': nty, 'H1_CHR': 0, 'H1_NLP': 0, 'H1_STD': 0, 'H1_GMT': 0, 'LOADCHK': 1},
+                      units=UNITS, unwind=12, flags=['--max-field-sensitivity-array-size', '160'], group='load',
+                      unwindset=['h_zif_open.0:%d' % (sz + 2), 'h_zif_open.1:%d' % (sz + 2)], timeout=600,
+                      bounds={'image': 'TZif version 1, exactly %d bytes: %d transitions, %d types, every body byte symbolic' % (sz, ntr, nty)}))
     return obs
 
 
@@ -38,6 +40,6 @@ def run(tier, seed):
         'C12', tier, seed, make_obs,
         level_note=('bounded model checking of lib/tzraw.c lookups over fully symbolic transition tables of 0..8 '
                     '(quick: 0,1,2,3,5) entries plus a concrete 300-entry table; oracle = linear scan'),
-        assumptions=['table as loaded: strictly increasing instants, type indices < nty', 'zone files themselves: memory safety of the loader is C19; faithful loading is decided here for version 1 images of 3 transitions and 2 types',
+        assumptions=['table as loaded: strictly increasing instants, type indices < nty', 'zone files themselves: memory safety of the loader is C19; faithful loading is decided here for version 1 images of 3 transitions and 2 types (thorough: up to 5 transitions, 3 types)',
                      'local->UTC: tables whose transitions are more than 64h apart'],
         stubs=[])
